@@ -37,7 +37,7 @@ def _surf(S, typ, prefix, transform):
     return SurfaceT4(typ, params, idorigin=[prefix], transform=tr)
 
 
-@contract(SurfaceT4.__eq__, props=['C13', 'C08', 'C16'], name='SurfaceT4.__eq__')
+@contract(SurfaceT4.__eq__, props=['C13', 'C08', 'C16', 'C04'], name='SurfaceT4.__eq__')
 class _Eq:
     """self == other  ==>  same type, and the same implicit function at every point (idorigin plays no role).
     Surfaces of different types are never equal; a transformed surface never equals an untransformed one."""
@@ -92,7 +92,7 @@ def _flat_key(k):
     return out
 
 
-@contract(SurfaceT4.__hash__, props=['C13', 'C08'], name='SurfaceT4.__hash__[consistent-with-__eq__]')
+@contract(SurfaceT4.__hash__, props=['C13', 'C08', 'C04'], name='SurfaceT4.__hash__[consistent-with-__eq__]')
 class _Hash:
     """Two surfaces with the same type, parameters and transform (what __eq__ compares) hash the same key, and the
     key contains nothing else (idorigin plays no role): dictionary de-duplication can rely on __eq__ alone.
